@@ -82,7 +82,9 @@ ALPHA = ["a", " ", "\t", "\n", '"', "\\", "\u00e9", "\U0001F600", "\u2028", "\u0
 
 # quoted contents additionally draw on control characters the SOURCE can only write as \\uXXXX escapes (C0 controls
 # other than the named escapes, DEL) and on U+0085: the printer has to escape or keep them so that the lexer accepts them
-Q_CONTROLS = ["\u0000", "\u0007", "\u001b", "\u007f", "\u0085"]
+# ... and on NON-PRINTABLE characters beyond the BMP (a format character, a private-use one): an escape written for
+# them must not be a 4-digit \\u escape of a 5/6-digit code point
+Q_CONTROLS = ["\u0000", "\u0007", "\u001b", "\u007f", "\u0085", "\U000E0001", "\U0010FFFD", "\u200b"]
 Q_ALPHA = ALPHA + Q_CONTROLS
 
 # (host id, text before the string token, text after it, parser flags); the first `long_hosts` get the longer bodies
